@@ -37,6 +37,8 @@ type c09Case struct {
 	Expired bool `json:"timeout_already_expired,omitempty"`
 	// PlainW: the caller's ResponseWriter offers Header / Write / WriteHeader only (no Flusher, no Hijacker)
 	PlainW bool `json:"plain_response_writer,omitempty"`
+	// PreAbort: the panicking handler calls c.Abort() right before it panics
+	PreAbort bool `json:"abort_before_panic,omitempty"`
 }
 
 type c09Val struct{ A, B int }
@@ -85,6 +87,9 @@ func newC09Router(c c09Case) *c09Router {
 				ctx.WriteString("H")
 			case "body":
 				ctx.WriteString("H")
+			case "abort-status":
+				// the way an error-page hook usually answers
+				ctx.AbortWithStatus(503, "H")
 			}
 		}
 	}
@@ -117,6 +122,9 @@ func newC09Router(c c09Case) *c09Router {
 				if c.Committed {
 					ctx.WriteString("x")
 				}
+				if c.PreAbort {
+					ctx.Abort()
+				}
 				cr.log = append(cr.log, "panic")
 				panic(val)
 			}
@@ -126,6 +134,9 @@ func newC09Router(c c09Case) *c09Router {
 			if i == c.Pos {
 				if c.Committed {
 					ctx.WriteString("x")
+				}
+				if c.PreAbort {
+					ctx.Abort()
 				}
 				cr.log = append(cr.log, "panic")
 				panic(val)
@@ -276,10 +287,13 @@ func c09Run(c c09Case, st *fw.Stats) []fw.Viol {
 			if c.Hook == "status-body" || c.Hook == "body" {
 				wantBody += "H"
 			}
+			if c.Hook == "abort-status" {
+				wantBody += "H\n" // http.Error ends the message with a newline
+			}
 			if string(w.body) != wantBody {
 				add("panic:body", fmt.Sprintf("%s: body %q, expected %q", desc, w.body, wantBody))
 			}
-			if !committed && (c.Hook == "status" || c.Hook == "status-body") && !strings.HasPrefix(firstWH, "WH:503:") {
+			if !committed && (c.Hook == "status" || c.Hook == "status-body" || c.Hook == "abort-status") && !strings.HasPrefix(firstWH, "WH:503:") {
 				add("panic:status", fmt.Sprintf("%s: committed %s, the hook set status 503", desc, firstWH))
 			}
 			if committed && !strings.HasPrefix(firstWH, "WH:200:") {
@@ -315,7 +329,7 @@ func c09Run(c c09Case, st *fw.Stats) []fw.Viol {
 }
 
 func c09Gen(tier string, emit func(c09Case)) {
-	hooks := []string{"absent", "nothing", "status", "status-body", "body"}
+	hooks := []string{"absent", "nothing", "status", "status-body", "body", "abort-status"}
 	values := []string{"string", "error", "struct", "abort-handler", "int"}
 	maxN := 3
 	if tier == "thorough" {
@@ -338,6 +352,8 @@ func c09Gen(tier string, emit func(c09Case)) {
 									emit(c09Case{Where: "chain", N: n, Split: sp, Pos: pos, When: when, Value: v, Hook: hk, Timeout: true, Expired: true})
 									emit(c09Case{Where: "chain", N: n, Split: sp, Pos: pos, When: when, Value: v, Hook: hk, PlainW: true})
 									emit(c09Case{Where: "chain", N: n, Split: sp, Pos: pos, When: when, Value: v, Hook: hk, PlainW: true, Committed: true})
+									emit(c09Case{Where: "chain", N: n, Split: sp, Pos: pos, When: when, Value: v, Hook: hk, PreAbort: true})
+									emit(c09Case{Where: "chain", N: n, Split: sp, Pos: pos, When: when, Value: v, Hook: hk, PreAbort: true, Committed: true})
 								}
 								if f == 0 || f == 2 {
 									emit(c09Case{Where: "chain", N: n, Split: sp, Pos: pos, When: when, Value: v, Hook: hk, Committed: f&2 != 0, Mounted: true})
@@ -379,7 +395,7 @@ func c09Gen(tier string, emit func(c09Case)) {
 var c09Spec = fw.Spec[c09Case]{
 	ID:    "C09",
 	Level: "model_checking",
-	Rule: "complete product: chain shapes n<=3 (thorough 5) x every global/group/route split x every panic position x {before Next, after Next, without Next} x panic value {string, error, struct, http.ErrAbortHandler, int} x hook {absent, does nothing, status only, status+body, body only} x {PanicsHandler middleware} x {a byte committed before the panic} (+ the panic request issued twice) (+ the router mounted behind a front router that passes its context on with HandleContext) (+ under the Timeout middleware with a deadline that is far away / has already passed) (+ on a caller's writer without Flush), plus panics inside NotFound / NotAllowed / OnError handlers; each followed by every one of 15 follow-up request kinds compared with a fresh identical router; " +
+	Rule: "complete product: chain shapes n<=3 (thorough 5) x every global/group/route split x every panic position x {before Next, after Next, without Next} x panic value {string, error, struct, http.ErrAbortHandler, int} x hook {absent, does nothing, status only, status+body, body only, AbortWithStatus(503, message)} x {PanicsHandler middleware} x {a byte committed before the panic} (+ the panic request issued twice) (+ the router mounted behind a front router that passes its context on with HandleContext) (+ under the Timeout middleware with a deadline that is far away / has already passed) (+ on a caller's writer without Flush) (+ the panicking handler calls Abort first), plus panics inside NotFound / NotAllowed / OnError handlers; each followed by every one of 15 follow-up request kinds compared with a fresh identical router; " +
 		"every case is non-trivial (a panic is raised in each)",
 	Assume: []string{"for the in-chain PanicsHandler only 'the panic does not escape' and 'follow-ups are unaffected' are asserted (the statement promises nothing else for it)", "when the hook sets no status, any single committed status is accepted"},
 	Bounds: func(tier string) map[string]any {
